@@ -315,8 +315,7 @@ RULES = {
         r"schedule (function|clear) " + re.escape(f["ref"]) + r"( |$)", f.get("line", "")) is not None,
     "C07-funcmap-raw-keyword": lambda job, res, f: f["kind"] == "dangling-reference" and re.search(
         r"/(right_click_setup|trigger_setup)/", f["path"]) is not None,
-    EMPTY_AFTER_RUN_ID: lambda job, res, f: f["kind"] == "incomplete-command" and re.search(r" run ?$", f.get("line", "")) is not None
-        and re.search(r"@lazy|Timer\.add", job.get("src", "")) is not None,
+    EMPTY_AFTER_RUN_ID: lambda job, res, f: f["kind"] == "incomplete-command" and re.search(r" run ?$", f.get("line", "")) is not None,
     "C07-json-replaces-function-tag": lambda job, res, f: f["kind"] in ("load-not-registered", "tick-not-registered")
         and re.search(r"new\s+tags?\.functions?\s*\(\s*minecraft\.(load|tick)\s*\)", job.get("src", "")) is not None,
     "C07-internal-name-under-override": lambda job, res, f: f["kind"] in ("load-not-registered", "tick-not-registered", "dangling-reference")
@@ -405,7 +404,7 @@ class Gen:
                 if self.p_empty and r.random() < 2 * self.p_empty:
                     return "break;"
                 b = B()
-                return "break;" if b in EMPTY_BODIES else b + (" break;" if self.p_empty and r.random() < 0.3 else "")
+                return "break;" if b in BLANK_BODIES else b + (" break;" if self.p_empty and r.random() < 0.3 else "")
             cases = " ".join(f"case {i + 1}: {case_body()}" for i in range(r.choice([1, 2, 3, 4, 5, 7])))
             return f"switch(${r.choice('abc')}) {{ {cases} }}"
         if k == 9:
@@ -474,7 +473,8 @@ class Gen:
             for _ in range(r.choice([0, 1, 2])):
                 out.append(self.load_builtin(all_callable))
         r.shuffle(out)
-        return "\n".join(out)
+        prog = "\n".join(out)
+        return (LAZY_NOTHING + prog) if "nothing0();" in prog else prog
 
 
 ADVERSARIAL = [
@@ -525,7 +525,11 @@ ADVERSARIAL = [
 # `@E@` is replaced by each of EMPTY_BODIES ("{}" is rejected by some statements and accepted by others, "{ }" and a
 # comment-only body pass the `== "{}"` test of add_arrow_function: the private function is stored with no command and
 # must still be written, because the call to it is emitted).
-EMPTY_BODIES = ["", " ", "// nothing\n", "\n"]
+EMPTY_BODIES = ["", " ", "// nothing\n", "\n",
+                # statements that expand to NO command: the block then holds one empty command (fix C07-empty-single-command-after-run)
+                ' Hardcode.repeat((q)=>{ }, start=1, stop=3); ', " nothing0(); "]
+BLANK_BODIES = EMPTY_BODIES[:4]
+LAZY_NOTHING = "@lazy function nothing0() { }\n"      # prelude of programs that use `nothing0();`
 EMPTY_SHAPES = [
     # switch: break-only cases at every position, both strategies (binary tree below pack_format 16 / #forcebst, macro above)
     ("switch-mid", 'function f() { switch($x) { case 1: say "1"; case 2: break; case 3: say "3"; } }'),
@@ -631,7 +635,7 @@ def empty_shape_jobs(rng, tier):
         bodies = EMPTY_BODIES if "@E@" in tpl else [""]
         if tier == "quick":
             combos = [(" " if len(bodies) > 1 else "", EMPTY_STRATEGIES[0]), (" " if len(bodies) > 1 else "", EMPTY_STRATEGIES[1]),
-                      (rng.choice(bodies), rng.choice(EMPTY_STRATEGIES[2:])), (rng.choice(bodies), rng.choice(EMPTY_STRATEGIES))]
+                      (rng.choice(bodies[4:] or bodies), rng.choice(EMPTY_STRATEGIES)), (rng.choice(bodies), rng.choice(EMPTY_STRATEGIES[2:]))]
         else:
             combos = [(b, st) for b in bodies for st in EMPTY_STRATEGIES]
         seen = set()
@@ -643,6 +647,8 @@ def empty_shape_jobs(rng, tier):
             cert = CERTS[k % len(CERTS)]
             ns = NAMESPACES[k % len(NAMESPACES)] if "TEST:" not in tpl else "TEST"
             src = tpl.replace("@E@", body)
+            if "nothing0();" in src:
+                src = LAZY_NOTHING + src
             for key, dflt in (("TICK", "__tick__"), ("LOAD", "__load__")):
                 src = src.replace(f"function {dflt}()", f"function {cert[key].replace('/', '.')}()").replace(
                     f"{dflt}();", f"{cert[key].replace('/', '.')}();").replace(f"@add({dflt})", f"@add({cert[key].replace('/', '.')})")
@@ -812,7 +818,8 @@ def report_failure(ck, job, res, origin, f, reported, extra=None):
     rep = dict(kind=f["kind"], failure=f, program=job.get("src"), header=job.get("header"), jmc_txt=job.get("cert"),
                pack_format=job.get("pack_format"), namespace=job.get("namespace", "TEST"), origin=origin,
                candidate_finding=rid, job=job,
-               expected="every own-namespace reference resolves to an emitted file; legal paths; no empty line; load/tick registered",
+               expected="every own-namespace reference (also inside quoted click-event text) resolves to an emitted file; legal paths; "
+                        "no empty or incomplete (`... run` + nothing) command line; load/tick registered",
                actual=f)
     if extra:
         rep.update(extra)
@@ -888,6 +895,9 @@ def main(tier: str) -> int:
         "built-in functions and the statement compilers are NOT modelled: their output is covered by evaluating disc/closedb in Coq on their logged "
         "sequences and by the direct scan of every real output (level for 'all built-ins': correspondence only)",
         "only ASCII names (Python str.lower() on non-ASCII letters is outside Model/ResLoc.v)",
+        "references inside quoted text (`/function ns:x` in click events) and the test that a line is a complete command (not blank, "
+        "no `execute ... run` with nothing behind it) are checked by the direct scan of the real output only; Model/Alloc.v's "
+        "scanners and C07_lines speak about word-separated references and non-empty newline-free lines",
     ]
     ck.proof(extra_targets=["Run/C07.vo"])
     from lib import gen_dir
@@ -1010,7 +1020,8 @@ def main(tier: str) -> int:
         convention_mode="strict (repaired)" if strict else "pinned (accepts 'a..b')",
         samples=[dict(origin=o, program=j["src"][:300], ops=len(r["ops"]), ok=r["ok"]) for (o, j), r in list(zip(jobs, results))[120:123]],
         correspondence="model verdict + complete file map (paths and contents) == real, per traced compile; disc/closedb/alloc_disc evaluated in Coq per trace; "
-                       "every real output scanned for dangling references, illegal paths, empty lines, missing tag entries",
+                       "every real output scanned for dangling references (word-separated and embedded in quoted text), illegal paths, "
+                       "empty / incomplete command lines, missing tag entries",
     ))
     return ck.finish()
 
